@@ -20,6 +20,7 @@ FIELDS = {
                  ('bx_base_parbeta1.c1', 'cm_parbeta2_1', ['c1'], 'double'), ('bx_base_parbeta1.c2', 'cm_parbeta2_2', ['c2'], 'double'),
                  ('bx_base_parbeta1.c3', 'cm_parbeta2_3', ['c3'], 'double'), ('bx_base_parbeta1.c4', 'cm_parbeta2_4', ['c4'], 'double')],
 }
+FIELDS['bj69sl2'] = [('bx_base_parbeta1.' + f_, cm_, refs_, ct_) for (f_, cm_, refs_, ct_) in FIELDS['parbeta1']] + [('sl2', 'cm_bj69sl2_0', [], 'double[48]')]
 PAIRS = {
     # C++ function: (reference unit, struct, has reference dummies of the closure values?)
     'decay0_beta__1': ('beta', 'parbeta', True),
@@ -28,6 +29,8 @@ PAIRS = {
     'decay0_funbeta': ('funbeta', 'parbeta', False),
     'decay0_funbeta1': ('funbeta1', 'parbeta1', False),
     'decay0_funbeta2': ('funbeta2', 'parbeta2', False),
+    'decay0_beta_1fu__1': ('beta_1fu', 'bj69sl2', True),
+    'decay0_funbeta_1fu': ('funbeta_1fu', 'bj69sl2', False),
 }
 FUN_ID = {'decay0_funbeta': 1, 'decay0_funbeta1': 2, 'decay0_funbeta2': 3, 'decay0_funbeta_1fu': 4}
 
@@ -56,6 +59,22 @@ def struct_pointer_locals(f):
     return out
 
 
+def scalar_fields(struct):
+    return [x for x in FIELDS[struct] if '[' not in x[3]]
+
+
+def array_fields(struct):
+    return [x for x in FIELDS[struct] if '[' in x[3]]
+
+
+def snap_x(struct, p):
+    return ''.join('  for (int i = 0; i < 48; i++) snap_x[k][i] = ((struct %s *)%s)->%s[i];\n' % (struct, p, fld) for fld, cm, refs, ct in array_fields(struct))
+
+
+def snap_r(struct):
+    return ''.join('  for (int i = 0; i < 48; i++) snap_r[k][i] = %s[i];\n' % cm for fld, cm, refs, ct in array_fields(struct))
+
+
 def closure_stub_x(db, pairing, cname, struct):
     """C++ callee  double decay0_funbetaK(double e_, void *params_): abstract effect keyed by E and the closure values"""
     g = db['funcs'][cname]
@@ -65,11 +84,13 @@ def closure_stub_x(db, pairing, cname, struct):
     sig = bx2c.Printer(T, bx2c.Opts()).signature(g)
     e = g.params[0][1]
     p = g.params[1][1]
-    args = ['(double)%s' % e] + ['(double)((struct %s *)%s)->%s' % (struct, p, fld) for fld, cm, refs, ct in FIELDS[struct]]
+    args = ['(double)%s' % e] + ['(double)((struct %s *)%s)->%s' % (struct, p, fld) for fld, cm, refs, ct in scalar_fields(struct)]
     L = [sig, '{', '  int k = tr_x_n; __CPROVER_assert(k < %d, "trace capacity"); tr_x_id[k] = %d;' % (rel.NC, cid)]
     for j, a in enumerate(args):
         L.append('  tr_x_arg[k][%d] = %s;' % (j, a))
     pad = args + ['0.0'] * (NA - len(args))
+    if array_fields(struct):
+        L.append(snap_x(struct, p).rstrip())
     L.append('  tr_x_n = k + 1; epoch_x = epoch_x + 1; idx_x = 0;')
     L.append('  return __CPROVER_uninterpreted_out(%d, 99, %s);' % (cid, ', '.join(pad[:NA])))
     L.append('}')
@@ -79,11 +100,13 @@ def closure_stub_x(db, pairing, cname, struct):
 def closure_stub_r(prog, pairing, uname, struct):
     key = rel.norm(uname)
     cid = pairing.callee_id(key)
-    args = ['(double)e'] + ['(double)%s' % cm for fld, cm, refs, ct in FIELDS[struct]]
+    args = ['(double)e'] + ['(double)%s' % cm for fld, cm, refs, ct in scalar_fields(struct)]
     L = ['double ref_%s(double e)' % uname, '{', '  int k = tr_r_n; __CPROVER_assert(k < %d, "trace capacity"); tr_r_id[k] = %d;' % (rel.NC, cid)]
     for j, a in enumerate(args):
         L.append('  tr_r_arg[k][%d] = %s;' % (j, a))
     pad = args + ['0.0'] * (NA - len(args))
+    if array_fields(struct):
+        L.append(snap_r(struct).rstrip())
     L.append('  tr_r_n = k + 1; epoch_r = epoch_r + 1; idx_r = 0;')
     L.append('  return __CPROVER_uninterpreted_out(%d, 99, %s);' % (cid, ', '.join(pad[:NA])))
     L.append('}')
@@ -98,11 +121,13 @@ def tgold_stub_x(db, pairing, struct):
     pn = [p[1] for p in g.params]   # a_, unnamed1, c_, f_, eps_, minmax_, xextr_, fextr_, params_
     fid = ' : '.join('%s == %s ? %d.0' % (pn[3], fn, k) for fn, k in FUN_ID.items() if fn in db['funcs']) + ' : 0.0'
     args = ['(double)%s' % pn[0], '(double)%s' % pn[2], '(double)%s' % pn[4], '(double)%s' % pn[5], '(%s)' % fid] + \
-           ['(double)((struct %s *)%s)->%s' % (struct, pn[8], fld) for fld, cm, refs, ct in FIELDS[struct]]
+           ['(double)((struct %s *)%s)->%s' % (struct, pn[8], fld) for fld, cm, refs, ct in scalar_fields(struct)]
     L = [sig, '{', '  int k = tr_x_n; __CPROVER_assert(k < %d, "trace capacity"); tr_x_id[k] = %d;' % (rel.NC, cid)]
     for j, a in enumerate(args):
         L.append('  tr_x_arg[k][%d] = %s;' % (j, a))
     pad = args + ['0.0'] * (NA - len(args))
+    if array_fields(struct):
+        L.append(snap_x(struct, pn[8]).rstrip())
     L.append('  *%s = __CPROVER_uninterpreted_out(%d, 0, %s);' % (pn[6], cid, ', '.join(pad[:NA])))
     L.append('  *%s = __CPROVER_uninterpreted_out(%d, 1, %s);' % (pn[7], cid, ', '.join(pad[:NA])))
     L.append('  tr_x_n = k + 1; epoch_x = epoch_x + 1; idx_x = 0;')
@@ -114,13 +139,15 @@ def tgold_stub_r(prog, pairing, struct, funit):
     cid = pairing.callee_id('tgold')
     fidr = {'funbeta': 1, 'funbeta1': 2, 'funbeta2': 3, 'funbeta_1fu': 4}
     fid = ' : '.join('f == ref_%s ? %d.0' % (fn, k) for fn, k in fidr.items() if fn == funit) + ' : 0.0'
-    args = ['(double)a', '(double)b', '(double)eps', '(double)minmax', '(%s)' % fid] + ['(double)%s' % cm for fld, cm, refs, ct in FIELDS[struct]]
+    args = ['(double)a', '(double)b', '(double)eps', '(double)minmax', '(%s)' % fid] + ['(double)%s' % cm for fld, cm, refs, ct in scalar_fields(struct)]
     L = ['double ref_%s(double e);' % funit,
          'void ref_tgold(double a, double b, double (*f)(double), double eps, int minmax, double *xextr, double *fextr)', '{',
          '  int k = tr_r_n; __CPROVER_assert(k < %d, "trace capacity"); tr_r_id[k] = %d;' % (rel.NC, cid)]
     for j, a in enumerate(args):
         L.append('  tr_r_arg[k][%d] = %s;' % (j, a))
     pad = args + ['0.0'] * (NA - len(args))
+    if array_fields(struct):
+        L.append(snap_r(struct).rstrip())
     L.append('  *xextr = __CPROVER_uninterpreted_out(%d, 0, %s);' % (cid, ', '.join(pad[:NA])))
     L.append('  *fextr = __CPROVER_uninterpreted_out(%d, 1, %s);' % (cid, ', '.join(pad[:NA])))
     L.append('  tr_r_n = k + 1; epoch_r = epoch_r + 1; idx_r = 0;')
@@ -141,30 +168,48 @@ def build(db, prog, cname, propid='C01'):
     checks = []
     skip = set(rel.norm(n) for n in ptrs)
     for fld, cm, refs, ct in FIELDS[struct]:
+        if '[' in ct:
+            setup.append('  for (int i = 0; i < 48; i++) { double v = nondet_double(); xs.%s[i] = v; %s[i] = v; }' % (fld, cm))
+            checks.append(('closure array ' + fld, ' && '.join('bx_same(xs.%s[%d], %s[%d])' % (fld, i, cm, i) for i in range(48))))
+            continue
         targets = ['xs.%s' % fld, cm] + ['r_%s' % r for r in refs if has_dummies and r in ref_names]
         setup.append('  { %s v = nondet_%s(); %s }' % (ct, ct, ' '.join('%s = v;' % t for t in targets)))
         cmp_ = 'bx_same((double)xs.%s, (double)%s)' % (fld, cm)
         checks.append(('closure ' + fld.split('.')[-1], cmp_))
         for r_ in refs:
             skip.add(r_)
+    if array_fields(struct):
+        for c_ in range(rel.NC):
+            checks.append(('closure array at call #%d' % (c_ + 1), '(%d >= tr_x_n || %d >= tr_r_n || (%s))' % (c_, c_, ' && '.join('bx_same(snap_x[%d][%d], snap_r[%d][%d])' % (c_, i, c_, i) for i in range(48)))))
     hooks = {'ref': rname, 'skip_vars': skip, 'extra_setup': setup, 'extra_checks': checks,
-             'extra_globals': ['static struct %s xs;' % struct] + ['static %s %s;' % (ct, cm) for fld, cm, refs, ct in FIELDS[struct]],
+             'extra_globals': ['static struct %s xs;' % struct, 'static double snap_x[%d][48], snap_r[%d][48];' % (rel.NC, rel.NC)] + [('static double %s[48];' % cm) if '[' in ct else ('static %s %s;' % (ct, cm)) for fld, cm, refs, ct in FIELDS[struct]],
              'custom_stubs_x': {}, 'custom_stubs_r': {}}
     if struct == 'parbeta2':
         # kf selects the forbidden-shape correction 1..4 (0 = none); the C++ throws for kf > 4 where the reference silently
         # uses cf = 1: outside the documented domain of the argument
         hooks['extra_setup'].append('  __CPROVER_assume(xs.kf <= 4);')
+    if cname == 'decay0_funbeta_1fu':
+        did = pairing.callee_id('divdif')
+        g = db['funcs']['decay0_divdif']
+        pn = [p[1] for p in g.params]
+        sig = bx2c.Printer(db['types'], bx2c.Opts()).signature(g)
+        pad = ', '.join(['(double)%s' % pn[2], '(double)%s' % pn[3], '(double)%s' % pn[4]] + ['0.0'] * (NA - 3))
+        hooks['custom_stubs_x']['decay0_divdif'] = sig + '\n{\n  int k = tr_x_n; __CPROVER_assert(k < %d, "trace capacity"); tr_x_id[k] = %d; tr_x_arg[k][0] = %s; tr_x_arg[k][1] = %s; tr_x_arg[k][2] = %s;\n  for (int i = 0; i < 48; i++) snap_x[k][i] = %s[i];\n  tr_x_n = k + 1; epoch_x = epoch_x + 1; idx_x = 0;\n  return __CPROVER_uninterpreted_out(%d, 99, %s);\n}' % (rel.NC, did, pn[2], pn[3], pn[4], pn[0], did, pad)
+        padr = ', '.join(['(double)nn', '(double)x', '(double)mm'] + ['0.0'] * (NA - 3))
+        hooks['custom_stubs_r']['divdif'] = 'double ref_divdif(double *f, double *a, int nn, double x, int mm)\n{\n  int k = tr_r_n; __CPROVER_assert(k < %d, "trace capacity"); tr_r_id[k] = %d; tr_r_arg[k][0] = nn; tr_r_arg[k][1] = x; tr_r_arg[k][2] = mm;\n  for (int i = 0; i < 48; i++) snap_r[k][i] = f[i];\n  tr_r_n = k + 1; epoch_r = epoch_r + 1; idx_r = 0;\n  return __CPROVER_uninterpreted_out(%d, 99, %s);\n}' % (rel.NC, did, did, padr)
     if cname in ('decay0_beta__1', 'decay0_beta1__1', 'decay0_beta2__1'):
         hooks['cutmap'] = {'bx_loop1_head': 'label_1'}
+    if cname == 'decay0_beta_1fu__1':
+        hooks['cutmap'] = {'bx_loop2_head': 'label_1'}   # loop 1 is the sl2 initialisation (a DO loop on both sides)
     fun_x = [c for c in fx.calls if c in FUN_ID]
     for c in fun_x:
         hooks['custom_stubs_x'][c] = closure_stub_x(db, pairing, c, struct)
     for c in fr.calls:
-        if c in ('funbeta', 'funbeta1', 'funbeta2') and c != rname:
+        if c in ('funbeta', 'funbeta1', 'funbeta2', 'funbeta_1fu') and c != rname:
             hooks['custom_stubs_r'][c] = closure_stub_r(prog, pairing, c, struct)
     if 'decay0_tgold' in fx.calls:
         hooks['custom_stubs_x']['decay0_tgold'] = tgold_stub_x(db, pairing, struct)
-        funit = [c for c in ('funbeta', 'funbeta1', 'funbeta2') if c in fr.calls or c in fr.ref_unit.externals][0]
+        funit = [c for c in ('funbeta_1fu', 'funbeta1', 'funbeta2', 'funbeta') if c in fr.calls or c in fr.ref_unit.externals][0]
         hooks['custom_stubs_r']['tgold'] = tgold_stub_r(prog, pairing, struct, funit)
     return rel.build_pair_query(db, prog, cname, pairing=pairing, propid=propid, hooks=hooks)
 
@@ -173,6 +218,7 @@ WRAPPERS = {
     # wrapper: (worker, struct, [(wrapper parameter, struct field path)])
     'decay0_beta': ('decay0_beta__1', 'parbeta', [('Zdtr_', 'Zdtr'), ('Qbeta_', 'Qbeta')]),
     'decay0_beta1': ('decay0_beta1__1', 'parbeta1', [('Zdtr_', 'bx_base_parbeta.Zdtr'), ('Qbeta_', 'bx_base_parbeta.Qbeta'), ('c1_', 'c1'), ('c2_', 'c2'), ('c3_', 'c3'), ('c4_', 'c4')]),
+    'decay0_beta_1fu': ('decay0_beta_1fu__1', 'bj69sl2', [('Zdtr_', 'bx_base_parbeta1.bx_base_parbeta.Zdtr'), ('Qbeta_', 'bx_base_parbeta1.bx_base_parbeta.Qbeta'), ('c1_', 'bx_base_parbeta1.c1'), ('c2_', 'bx_base_parbeta1.c2'), ('c3_', 'bx_base_parbeta1.c3'), ('c4_', 'bx_base_parbeta1.c4')]),
     'decay0_beta2': ('decay0_beta2__1', 'parbeta2', [('Zdtr_', 'bx_base_parbeta1.bx_base_parbeta.Zdtr'), ('Qbeta_', 'bx_base_parbeta1.bx_base_parbeta.Qbeta'), ('kf_', 'kf'),
                                                      ('c1_', 'bx_base_parbeta1.c1'), ('c2_', 'bx_base_parbeta1.c2'), ('c3_', 'bx_base_parbeta1.c3'), ('c4_', 'bx_base_parbeta1.c4')]),
 }
